@@ -11,7 +11,7 @@ BINDIR="$HOME/.rustup/toolchains/nightly-x86_64-unknown-linux-gnu/lib/rustlib/x8
 IDS=("$@"); [ ${#IDS[@]} = 0 ] && IDS=(C01 C02 C03 C04 C05 C06 C07 C08 C09 C10 C11 C12 C13 C14 C15 C16 C17 C18 C19)
 export CARGO_NET_OFFLINE=true
 mkdir -p "$OUT" "$T/prof"; rm -f "$T"/prof/*.profraw
-(cd "$H" && RUSTFLAGS="-Cinstrument-coverage" cargo +nightly build --offline --release --target-dir "$T" >"$T/build.log" 2>&1) || { tail -20 "$T/build.log"; exit 2; }
+(cd "$H" && LLVM_PROFILE_FILE="$T/prof/build-%p-%m.profraw" RUSTFLAGS="-Cinstrument-coverage" cargo +nightly build --offline --release --target-dir "$T" >"$T/build.log" 2>&1) || { tail -20 "$T/build.log"; exit 2; }
 BIN="$T/release/attoverif"
 for id in "${IDS[@]}"; do
     # shards are started directly (no evidence file is written by this tool)
